@@ -196,11 +196,15 @@ def run(tier):
              ("s1", True, "none", False, False), ("s4", False, "none", True, False), ("s1", False, "none", False, True), ("s4", True, "some", True, True)]
     settings = SETTINGS if tier == "thorough" else QUICK
     n = 0
-    for lname, records in LAYOUTS.items():
+    for lname, records in list(LAYOUTS.items()) + [("a field appended (Paragraph::insert) to text without final newline, then reformatted", "append")]:
+        pre_append = records == "append"
+        if pre_append:
+            records = [F_("M", ["m"]), blank(), F_("B", ["b1", "b2"], final_newline=False)]
         toks = []
         for r in records:
             toks += r["tokens"]
-        base_paras, base_comments, _, _, err0 = analyse(toks)
+        exp_toks = toks + ([("NEWLINE", symstr.lit("\n"))] + F_("X", ["x"])["tokens"] if pre_append else [])
+        base_paras, base_comments, _, _, err0 = analyse(exp_toks)
         assert err0 is None, err0
         def has_inner_newline(r):
             ks = [k for k, t in r["tokens"]]
@@ -220,6 +224,16 @@ def run(tier):
             I = hirai.Interp(F, mod, max_depth=18)
             I.max_recursion = 6
             s0 = hirai.State({}, dict(st.mon), 0).setroot(("T", "doc"), pdoc)
+            if pre_append:
+                hh = treemodel.heap_get(s0)
+                rootid = pdoc[2][0][2]
+                lastp = [c for c in hh[rootid][3] if hh[c][1] == "N" and hh[c][2] == "PARAGRAPH"][-1]
+                s0 = s0.setroot(("T", "lastp"), ("enum", P + "Paragraph", (("abs", "nref", lastp),)))
+                rpre = I.inline(F.fn(P + "Paragraph::insert"), [("ref", (("T", "lastp"),)), symstr.lit("X"), A("x")], s0)
+                if len(rpre) != 1 or rpre[0][0] != OK:
+                    C.ob("C07/pre-step", label, False, "Paragraph::insert before reformatting has outcomes %s" % [(c_, str(v_)[:60]) for c_, v_, _ in rpre])
+                    continue
+                s0 = rpre[0][2]
             mllv = none() if mll == "none" else some(hirai.mkint(30))
             pw = some(("abs", "para-wrap", (ind_val(ind), iel, mllv, sort, fmt)))
             args = [("ref", (("T", "doc"),)), some(("abs", "cmp-para")) if sort else none(), pw]
